@@ -89,6 +89,9 @@ def simulate(ops):
 
     for i, o in enumerate(ops):
         issued = i
+        if o["s"] == "x":       # harness-level op (poison): no effect on either side's script
+            done[i] = True
+            continue
         pump()
         if not done[i]:
             if not o.get("nw"):
@@ -394,6 +397,11 @@ def gen_script(rng, tier):
             crecv()
         if rng.random() < 0.3:
             csend()
+    # now and then, somewhere in the script, other streams of the same process try to send payloads the codec
+    # rejects half-way (websocket transports; a no-op elsewhere): every later valid message must still arrive intact
+    if rng.random() < 0.15:
+        for _ in range(rng.choice([1, 1, 2])):
+            ops.insert(rng.randrange(0, len(ops) + 1), {"s": "x", "a": "poison"})
     # random extra delays / no-wait flags
     for o in ops:
         if rng.random() < 0.04:
@@ -471,6 +479,8 @@ def harness_violation(case, r):
         return "panic: " + r["panic"][:600]
     if r.get("open"):
         return "stream could not be opened: " + r["open"][:300]
+    if r.get("poison"):
+        return "a deliberately unencodable payload was not refused cleanly: " + "; ".join(r["poison"])[:300]
     cops, hops = split_sides(case)
     if r.get("hang"):
         if _blocked_receive(case, r):
@@ -572,6 +582,8 @@ def histogram(case, r):
     n = len(case["ops"])
     ks.append("ops=%s" % ("0-4" if n < 5 else "5-12" if n < 13 else "13-30" if n < 31 else "31+"))
     for o in case["ops"]:
+        if o["a"] == "poison":
+            ks.append("poison_op")
         if o["a"] == "send":
             ks.append("size=%d" % o.get("z", 0))
             ks.append("shape=%d" % o.get("v", 0))
@@ -654,7 +666,8 @@ def model_dump(case, r):
 RULE = ("scripts of client Send/CloseSend/Receive and handler Receive/Send/return(err) in 8 styles (echo, burst, mixed, "
         "close-first, early return with racing sends, API misuse after close/terminal, free-running, 64 KiB/1 MiB payloads, "
         "mock request buffer filled exactly before CloseSend, mock response buffer filled exactly before the handler "
-        "returns to a late client after CloseSend; a Receive that never returns is fed to the monitor as an illegal result); payloads carry a map, an omit-when-empty text and slice in 5 "
+        "returns to a late client after CloseSend; a Receive that never returns is fed to the monitor as an illegal result; in 15% of scripts other streams of the "
+        "process first try to send payloads the codec rejects half-way); payloads carry a map, an omit-when-empty text and slice in 5 "
         "shapes (received payloads are compared in full at receipt and again after the stream), "
         "each run on the mock transport and on 1-4 of websocket/json, websocket/msgpack, grpc, grpc(Internal); handler "
         "results over nil + 17 error kinds x 6 message variants (incl. the wire separator). Non-trivial = at least one "
